@@ -168,7 +168,8 @@ def build_recording(tier):
     V0, A0 = ["--validate=false"], ["--alt=false"]
     plan = [("Pipeline_c04.cfg", None, 500 if thorough else 40, V0), ("Pipeline_c01sim.cfg", 1200 if thorough else 40, None, V0),
             ("Pipeline_sim.cfg", 2500 if thorough else 50, None, V0), ("Pipeline_c06single.cfg", None, 10 ** 6, V0), ("Pipeline_c06grp.cfg", None, 10 ** 6 if thorough else 16, V0), ("Pipeline_c06sim.cfg", 1500 if thorough else 30, None, V0),
-            ("Pipeline_c07sim.cfg", 1500 if thorough else 40, None, V0), ("Pipeline_c10.cfg", None, 1000 if thorough else 90, A0),
+            ("Pipeline_c07sim.cfg", 1500 if thorough else 40, None, V0), ("Pipeline_c11rules.cfg", None, 10 ** 6, V0), ("Pipeline_c11rulesp.cfg", None, 10 ** 6, V0), ("Pipeline_c10.cfg", None, 1000 if thorough else 90, A0), ("Pipeline_c10mask.cfg", None, 700 if thorough else 60, A0),
+            ("Pipeline_c13sim.cfg", 400 if thorough else 24, None, V0 + A0),
             ("Pipeline_c14sim.cfg", 2000 if thorough else 60, None, V0)]
     if thorough:
         plan.append(("Pipeline_c10sim.cfg", 1500, None, A0))
@@ -202,14 +203,21 @@ def build_recording(tier):
             f.write(open(prec).read())
     # C13: repeated and re-scheduled runs on the accepted multi-controller cases
     multi = os.path.join(sc, "multi.cases")
-    ids = []
+    ids, twins = [], []
     for line in open(rec):
         r_ = json.loads(line)
         m = r_["runs"].get("main")
         if m and m["exit"] == 0 and len(r_["case"]["ctrls"]) >= 2:
-            ids.append(r_["id"])
+            names = [x["name"] for x in r_["case"]["ctrls"]]
+            imported = any("." in p_["type"] and not p_["type"].startswith("context.") for m_ in r_["case"]["methods"] for p_ in m_["sig"]) or \
+                any("." in t_ for m_ in r_["case"]["methods"] for t_ in m_["ret"])
+            # controllers sharing a struct name across packages and using imported types: every ordering by name alone is ambiguous there
+            (twins if len(set(names)) < len(names) and imported else ids).append(r_["id"])
     rng.shuffle(ids)
-    ids = set(ids[:(200 if thorough else 8)])
+    rng.shuffle(twins)
+    n13 = 200 if thorough else 10
+    twins = twins[:n13 // 2]
+    ids = set(twins + ids[:n13 - len(twins)])
     with open(multi, "w") as f:
         for line in open(cases):
             if line.startswith('"CASE '):
